@@ -100,14 +100,11 @@ def deref_sites(F):
     return out
 
 
-_ns_cache = {}
-
-
 def _summaries(F):
     from nullflow import NullSummaries
-    if id(F) not in _ns_cache:
-        _ns_cache[id(F)] = NullSummaries(F)
-    return _ns_cache[id(F)]
+    if getattr(F, '_null_summaries', None) is None:
+        F._null_summaries = NullSummaries(F)
+    return F._null_summaries
 
 
 def discharged(F, f, src, kind, deref, var):
